@@ -19,7 +19,7 @@ from pyvc.registry import REG  # noqa
 EXIT_HELD, EXIT_VIOLATION, EXIT_UNDECIDED, EXIT_CRASH = 0, 1, 2, 3
 
 ENCODING_ASSUMPTIONS = [
-    'pyvc (our VC generator: heap model, builtin models) is trusted; mitigated by seeded-change runs and CPython cross-checks, not eliminated',
+    'pyvc (our VC generator: heap model, builtin models) is trusted; mitigated by the seeded changes under /verif/seeded (every one must be refuted or left undecided, never passed) and by native replay of contract clauses on counter-models; not eliminated',
     'z3 4.x/5.x and cvc5 soundness',
     'Python int = mathematical integer (exact); // and % encoded as floor division/modulus',
     'bit operators: shifts are exact (x*2**k, x div 2**k); &,|,^ are uninterpreted except x & (2**k-1) == x mod 2**k (CPython fact) and lemmas proved separately',
@@ -61,8 +61,22 @@ def _work(task):
                 continue            # this property needs only some of the contract's obligations (the rest run under others)
             r = solve(ob, timeout_ms=c.timeout or timeout_ms)
             zm = r.pop('_z3model', None)
-            if r['status'] == 'refuted' and zm is not None and (ob.info or {}).get('_entry_vars') and block is None \
-                    and not r.get('case'):       # (a case-split leaf's model does not mention the split term)
+            if r['status'] == 'refuted' and (ob.info or {}).get('_entry_vars') and block is None \
+                    and (zm is None or r.get('case')):
+                # (a case-split leaf's model does not mention the split term: get a model of the unsplit ground query)
+                zm = None
+                try:
+                    s_ = z3.Solver()
+                    s_.set('timeout', 5000)
+                    for a_ in ob.assumptions:
+                        if not z3.is_quantifier(a_):
+                            s_.add(a_)
+                    s_.add(z3.Not(ob.goal))
+                    if s_.check() == z3.sat:
+                        zm = s_.model()
+                except z3.Z3Exception:
+                    zm = None
+            if r['status'] == 'refuted' and zm is not None and (ob.info or {}).get('_entry_vars') and block is None:
                 try:
                     from pyvc.replay_harness import extract
                     r['replay_inputs'] = extract(ex, fi, c, ob.info['_entry_vars'], zm)
